@@ -624,6 +624,248 @@ fn batch2(s: &mut Session, rng: &mut Rng, g32: &[i32], g16: &[i16], scale: u64) 
     }
 }
 
+
+// ---------------------------------------------------------------- batch 3: DeltaSetIndexMap::get, DELTA exceptions, IFT ids
+
+/// `DeltaSetIndexMap::get` on a format 0 (u16 count) or format 1 (u32 count) map
+fn dsim_case(s: &mut Session, format: u8, entry_format: u8, map_count: u32, data: &[u8], index: u32) {
+    use read_fonts::tables::variations::DeltaSetIndexMap;
+    let mut bytes = vec![format, entry_format];
+    if format == 0 {
+        bytes.extend_from_slice(&(map_count as u16).to_be_bytes());
+    } else {
+        bytes.extend_from_slice(&map_count.to_be_bytes());
+    }
+    bytes.extend_from_slice(data);
+    let Ok(map) = DeltaSetIndexMap::read(FontData::new(&bytes)) else {
+        s.count("dsim: unreadable map skipped");
+        return;
+    };
+    // the request carries the fields as the parsed table exposes them
+    let (ef, mc, md): (u8, u32, &[u8]) = match &map {
+        DeltaSetIndexMap::Format0(f) => (f.entry_format().bits(), f.map_count() as u32, f.map_data()),
+        DeltaSetIndexMap::Format1(f) => (f.entry_format().bits(), f.map_count(), f.map_data()),
+    };
+    let mut req = format!("dsim.get {ef} {mc} {index} {}", md.len());
+    for b in md {
+        req.push_str(&format!(" {b}"));
+    }
+    k(s, "dsim.get", req, || match map.get(index) {
+        Ok(ix) => format!("{} {}", ix.outer, ix.inner),
+        Err(_) => "err".to_string(),
+    });
+}
+
+struct XPen(Option<f32>);
+impl skrifa::outline::OutlinePen for XPen {
+    fn move_to(&mut self, x: f32, _y: f32) {
+        if self.0.is_none() {
+            self.0 = Some(x);
+        }
+    }
+    fn line_to(&mut self, _x: f32, _y: f32) {}
+    fn quad_to(&mut self, _a: f32, _b: f32, _x: f32, _y: f32) {}
+    fn curve_to(&mut self, _a: f32, _b: f32, _c: f32, _d: f32, _x: f32, _y: f32) {}
+    fn close(&mut self) {}
+}
+
+/// `[SDB sdb] [SDS sds] DELTAP/DELTAC(arg)` executed by the REAL interpreter at `ppem`: the adjustment is
+/// observed end to end as the x coordinate (26.6) of point 0, which starts at the origin
+/// (DELTAP moves it; DELTAC adjusts cvt[0] = 0, which `RCVT` + `SHPIX` then applies to the point).
+fn delta_case(s: &mut Session, ppem: u16, sdb: Option<i32>, sds: Option<i32>, variant: u8, cvt_form: bool, arg: i32) {
+    use crate::synth::{build, push_i32, triangle, Spec, PUSHB1};
+    use skrifa::{
+        instance::{Location, Size},
+        outline::{DrawSettings, Engine, HintingInstance, HintingOptions, Target},
+        MetadataProvider,
+    };
+    let mut code = vec![];
+    if let Some(n) = sdb {
+        push_i32(&mut code, n);
+        code.push(0x5E);
+    }
+    if let Some(n) = sds {
+        push_i32(&mut code, n);
+        code.push(0x5F);
+    }
+    push_i32(&mut code, arg);
+    code.extend_from_slice(&[PUSHB1, 0, PUSHB1, 1]);
+    let op = match (cvt_form, variant) {
+        (false, 0) => 0x5D,
+        (false, 16) => 0x71,
+        (false, _) => 0x72,
+        (true, 0) => 0x73,
+        (true, 16) => 0x74,
+        (true, _) => 0x75,
+    };
+    code.push(op);
+    if cvt_form {
+        // point 0, cvt[0], SHPIX
+        code.extend_from_slice(&[PUSHB1, 0, PUSHB1, 0, 0x45, 0x38]);
+    }
+    let spec = Spec { upem: 1000, advances: vec![(500, 0)], glyphs: vec![triangle(code, false)], cvt: vec![0, 64], fpgm: vec![], prep: vec![], ascender: 800, descender: -200 };
+    let bytes = build(&spec);
+    let req = format!("delta.prog {ppem} {} {} {} {} {variant} {arg}", sdb.is_some() as u8, sdb.unwrap_or(0), sds.is_some() as u8, sds.unwrap_or(0));
+    let group = if cvt_form { "delta.c" } else { "delta.p" };
+    let class = std::cell::Cell::new("trap");
+    let class_ref = &class;
+    k(s, group, req, move || {
+        let font = read_fonts::FontRef::new(&bytes).unwrap();
+        let outlines = font.outline_glyphs();
+        let opts = HintingOptions { engine: Engine::Interpreter, target: Target::Mono };
+        let inst = HintingInstance::new(&outlines, Size::new(ppem as f32), &Location::default(), opts).expect("instance");
+        let glyph = outlines.get(GlyphId::new(0)).unwrap();
+        let mut pen = XPen(None);
+        match glyph.draw(DrawSettings::hinted(&inst, true), &mut pen) {
+            Err(_) => {
+                class_ref.set("err");
+                "err".to_string()
+            }
+            Ok(_) => {
+                let x = pen.0.expect("first point") * 64.0;
+                assert_eq!(x, x.round(), "26.6 coordinate");
+                if x == 0.0 {
+                    class_ref.set("not-applied");
+                    "none".to_string()
+                } else {
+                    class_ref.set("applied");
+                    (x as i64).to_string()
+                }
+            }
+        }
+    });
+    s.count(&format!("{group}:{}", class.get()));
+}
+
+/// the numeric ids of a format 2 patch map whose entries carry the given id deltas
+fn f2ids_case(s: &mut Session, deltas: &[Option<i32>]) {
+    use crate::ift::{assemble, base_tables, f2_table, F2Entry};
+    use incremental_font_transfer::patchmap::{verif_hooks as pmh, PatchId};
+    let entries: Vec<F2Entry> = deltas.iter().map(|d| F2Entry { delta: *d, format: None, ignored: false, codepoints: true }).collect();
+    let table = f2_table(&[0, 0, 0, 1, 0, 0, 0, 2, 0, 0, 0, 3, 0, 0, 0, 4], 3, &entries, None);
+    let bytes = assemble(&table, None, &base_tables(2, true));
+    let mut req = "ift.f2ids".to_string();
+    for d in deltas {
+        req.push_str(&format!(" {}", d.unwrap_or(99_999_999)));
+    }
+    k(s, "ift.f2ids", req, || {
+        let font = read_fonts::FontRef::new(&bytes).unwrap();
+        match pmh::format2_entries(&font, false) {
+            Err(_) => "err".to_string(),
+            Ok(es) => {
+                let ids: Vec<i64> = es
+                    .iter()
+                    .map(|e| match &e.uri.id {
+                        PatchId::Numeric(v) => *v as i64,
+                        _ => -1,
+                    })
+                    .collect();
+                join(&ids)
+            }
+        }
+    });
+}
+
+fn batch3(s: &mut Session, rng: &mut Rng, scale: u64) {
+    // --- DeltaSetIndexMap::get: every entry format byte x map counts incl. 0 x boundary indices
+    for ef in 0u16..=255 {
+        let ef = ef as u8;
+        let es = (((ef & 0x30) >> 4) + 1) as usize;
+        for (format, mc) in [(0u8, 0u32), (1, 0), (0, 1), (1, 1), (0, 3), (1, 5)] {
+            let data: Vec<u8> = (0..es * mc as usize).map(|_| *rng.pick(&[0u8, 1, 0x7F, 0x80, 0xFF])).collect();
+            for ix in [0u32, 1, mc.wrapping_sub(1), mc, mc + 1, 0xFFFF, 0x10000, u32::MAX - 1, u32::MAX] {
+                dsim_case(s, format, ef, mc, &data, ix);
+            }
+        }
+    }
+    for _ in 0..400 * scale {
+        let ef = rng.next() as u8;
+        let es = (((ef & 0x30) >> 4) + 1) as usize;
+        let format = rng.below(2) as u8;
+        let mc = *rng.pick(&[0u32, 1, 2, 7, 255, 256]);
+        let extra = rng.below(3) as usize;
+        let data = rng.bytes(es * mc as usize + extra);
+        for _ in 0..4 {
+            let ix = if rng.chance(1, 2) { rng.below(mc as u64 + 2) as u32 } else { rng.next() as u32 };
+            dsim_case(s, format, ef, mc, &data, ix);
+        }
+    }
+    // large counts: format 0 at its maximum, format 1 beyond 16 bits
+    for (format, mc, ef) in [(0u8, 0xFFFFu32, 0x00u8), (0, 0xFFFF, 0x3F), (1, 0x1_0001, 0x0F), (1, 70_000, 0x3F)] {
+        let es = (((ef & 0x30) >> 4) + 1) as usize;
+        let data: Vec<u8> = (0..es * mc as usize).map(|i| (i * 37 % 251) as u8).collect();
+        for ix in [0u32, mc - 1, mc, u32::MAX] {
+            dsim_case(s, format, ef, mc, &data, ix);
+        }
+    }
+
+    // --- DELTAP / DELTAC: SDB x SDS x variant x ppem chosen so that a nibble applies x magnitude
+    let vals = crate::matrix::VALUES;
+    for cvt_form in [false, true] {
+        for variant in [0u8, 16, 32] {
+            for sds in std::iter::once(None).chain(vals.iter().map(|v| Some(*v))).chain([Some(2), Some(5)]) {
+                for sdb in [None, Some(0), Some(1), Some(63), Some(-1), Some(65536 + 20)] {
+                    let base = sdb.map(|n| n as u16).unwrap_or(9) as u32;
+                    for nib in [0u32, 7, 15] {
+                        let target = base + variant as u32 + nib;
+                        for ppem in [target, target + 1] {
+                            if ppem == 0 || ppem > 65535 {
+                                continue;
+                            }
+                            for mag in [0i32, 7, 8, 15] {
+                                let arg = ((nib as i32) << 4) | mag | if mag == 7 { 0x7FFF_FF00u32 as i32 } else { 0 };
+                                delta_case(s, ppem as u16, sdb, sds, variant, cvt_form, arg);
+                            }
+                        }
+                    }
+                }
+            }
+        }
+    }
+    for _ in 0..300 * scale {
+        let sdb = if rng.chance(1, 2) { Some(rng.range(0, 40) as i32) } else { None };
+        let sds = if rng.chance(2, 3) { Some(rng.range(-2, 8) as i32) } else { None };
+        let variant = *rng.pick(&[0u8, 16, 32]);
+        let ppem = rng.range(1, 80) as u16;
+        let arg = if rng.chance(1, 2) { rng.below(256) as i32 } else { rng.next() as i32 };
+        delta_case(s, ppem, sdb, sds, variant, rng.chance(1, 2), arg);
+    }
+
+    // --- format 2 entry ids
+    let climb = |target: i64| -> Vec<Option<i32>> {
+        let mut v = vec![];
+        let mut cur = 0i64;
+        while target - cur > 0x80_0000 {
+            v.push(Some(0x7F_FFFF));
+            cur += 0x80_0000;
+        }
+        v.push(Some((target - cur - 1) as i32));
+        v
+    };
+    for target in [0i64, 1, 0x7FFF_FFFF, 0x8000_0000, u32::MAX as i64 - 1, u32::MAX as i64, u32::MAX as i64 + 1] {
+        for follower in [None, Some(0), Some(1), Some(-1), Some(-5), Some(0x7F_FFFF), Some(-0x80_0000)] {
+            let mut ds = climb(target);
+            ds.push(follower);
+            ds.push(None);
+            f2ids_case(s, &ds);
+        }
+    }
+    for _ in 0..300 * scale {
+        let n = 1 + rng.below(6) as usize;
+        let ds: Vec<Option<i32>> = (0..n)
+            .map(|_| {
+                let r = rng.range(-40, 40) as i32;
+                if rng.chance(1, 4) {
+                    None
+                } else {
+                    Some(*rng.pick(&[-0x80_0000, -2, -1, 0, 1, 5, 0x7F_FFFF, r]))
+                }
+            })
+            .collect();
+        f2ids_case(s, &ds);
+    }
+}
+
 fn rand_axis(rng: &mut Rng, g16: &[i16]) -> Axis {
     match rng.below(4) {
         0 => (*rng.pick(g16), *rng.pick(g16), *rng.pick(g16)),
@@ -793,6 +1035,7 @@ fn run_inner(cfg: &Config, s: &mut Session) {
         ivs_case(s, axis_count, &regions, &cols, &coords);
     }
     batch2(s, &mut rng, &g32, &g16, scale);
+    batch3(s, &mut rng, scale);
     // worst-case accumulation: the maximal number of columns, extreme deltas, scalar 1.0
     for (n, d) in [(65535usize, i32::MIN), (65535, i32::MAX), (32767, i32::MIN), (32767, i32::MAX), (3, i32::MIN), (1, i32::MIN)] {
         let cols: Vec<(u16, i32)> = (0..n).map(|_| (0u16, d)).collect();
